@@ -118,6 +118,10 @@ package nfs
 //@   ensures [open] endable(result0) && result0.Fs == nfs.fsstate && !muheld[base(nfs.shrinkst.mu)] @C09
 //@   ensures [Fn6-stale] result3 == 0 || result3 == 70 || result3 == 22 @C02
 //@   ensures [Fn1-len] result3 == 0 ==> len(result1) <= count || len(result1) <= 1073774592 @C02 @C11
+// Fn1-flow (C02): what is read is the object of the handle, from the requested offset, for the requested count
+// (a link: all of it), and what inode.Read returned is what is handed on.
+//@   callsite inode.(*Inode).Read@1 requires [Fn1-args] arg0 == ip && arg2 == offset && arg3 == ite(ip.Kind == 5, ip.Size, count) @C02
+//@   ensureslocal [Fn1-passes-on] result3 == 0 ==> result1 == data && result2 == eof @C02
 
 //@ spec (*Nfs).NFSPROC3_READ(nfs, args)
 //@   props C01 C02 C03 C06 C08 C09 C10 C11 C14
@@ -127,11 +131,15 @@ package nfs
 //@   ensures [R2-durable] result.Status == 0 ==> lastst == 1 @C01 @C07
 //@   ensures [A1-aborted] result.Status != 0 ==> lastst == 3 || lastst == 4 @C09
 //@   ensures [Fn1-count] result.Status == 0 ==> uint64(result.Resok.Count) == len(result.Resok.Data) @C02
+//@   callsite nfs.(*Nfs).doRead@1 requires [Fn1-request] arg1 == args.File && arg2 == 1 && arg3 == uint64(args.Offset) && arg4 == uint64(args.Count) @C02
+//@   ensureslocal [Fn1-reply] result.Status == 0 ==> result.Resok.Data == data && result.Resok.Eof == eof @C02
 //@   ensures [L2-quiet] rpcPost(nfs) @C03 @C06 @C14
 
 //@ spec (*Nfs).NFSPROC3_READLINK(nfs, args)
 //@   props C01 C02 C03 C06 C08 C09 C10 C11 C14
 //@   requires rpcPre(nfs)
+//@   callsite nfs.(*Nfs).doRead@1 requires [Fn1-request] arg1 == args.Symlink && arg2 == 5 && arg3 == 0 @C02
+//@   ensureslocal [Fn1-reply] result.Status == 0 ==> len(result.Resok.Data) == len(data) && (forall i uint64 :: i < len(data) ==> result.Resok.Data[i] == data[i]) @C02
 //@   allocates $TXALLOC, nfstypes.READLINK3res
 //@   modifies $TXMODS, $FILEMODS
 //@   ensures [R2-durable] result.Status == 0 ==> lastst == 1 @C01 @C07
@@ -153,6 +161,9 @@ package nfs
 //@ spec (*Nfs).NFSPROC3_WRITE(nfs, args)
 //@   props C01 C02 C03 C05 C06 C07 C08 C09 C10 C11 C14 C19
 //@   requires rpcPre(nfs)
+// Fn2-flow (C02): the bytes, offset and count of the request are what is written, into the object of the handle
+//@   callsite inode.(*Inode).Write@1 requires [Fn2-request] arg0 == ip && arg2 == uint64(args.Offset) && arg3 == uint64(args.Count) && arg4 == args.Data @C02
+//@   callsite nfs.(*Nfs).getShrink@1 requires [Fn2-object] arg1 == args.File @C02 @C08
 //@   allocates $TXALLOC, nfstypes.WRITE3res, nfstypes.WRITE3args
 //@   modifies $TXMODS, $FILEMODS, $SHRINKMODS
 //@   ensures [F2-scheduled] forall j uint64 :: shrinkdue[j] ==> old(shrinkdue)[j] @C05
@@ -389,6 +400,8 @@ package nfs
 //@ spec (*Nfs).doCreate(nfs, dfh, name, kind, data)
 //@   props C02 C03 C04 C05 C06 C08 C09 C10 C11
 //@   requires rpcPre(nfs)
+// Fn2-flow (C02): a symbolic link's target is written whole, from offset 0, into the new inode
+//@   callsite inode.(*Inode).Write@1 requires [Fn2-link-target] arg0 == ip && arg2 == 0 && arg3 == len(data) && arg4 == data @C02
 //@   allocates $TXALLOC, $DIRALLOC
 //@   modifies $TXMODS, $FILEMODS, $DIRMODS, $SHRINKMODS, dnames, shrinker.ShrinkerSt.nthread
 //@   ensures [F2-scheduled] forall j uint64 :: shrinkdue[j] ==> old(shrinkdue)[j] @C05
@@ -426,6 +439,7 @@ package nfs
 //@ spec (*Nfs).NFSPROC3_SYMLINK(nfs, args)
 //@   props C01 C02 C03 C04 C05 C06 C08 C09 C10 C11 C14
 //@   requires rpcPre(nfs)
+//@   callsite nfs.(*Nfs).doCreate@1 requires [Fn2-link-request] arg1 == args.Where.Dir && arg2 == args.Where.Name && arg3 == 5 && len(arg4) == len(args.Symlink.Symlink_data) && (forall i uint64 :: i < len(arg4) ==> arg4[i] == args.Symlink.Symlink_data[i]) @C02
 //@   allocates $TXALLOC, $DIRALLOC, nfstypes.SYMLINK3res
 //@   modifies $TXMODS, $FILEMODS, $DIRMODS, $SHRINKMODS, dnames, shrinker.ShrinkerSt.nthread
 //@   ensures [F2-scheduled] forall j uint64 :: shrinkdue[j] ==> old(shrinkdue)[j] @C05
